@@ -1,6 +1,6 @@
 // replay for property C16, harness models::problem::costs::verif_kani_proofs::c16_reject_gap_profile (crate vrp-core, proof module costs)
 // failed: assertion failed: create_matrix_transport_cost(vec![matrix(0, None, 4, 4),
-matrix(2, None, 4, 4)]).is_err() @ costs_proofs.rs:170
+matrix(2, None, 4, 4)]).is_err() @ costs_proofs.rs:171
 // run: /verif/check --replay /verif/replays/C16/c16_reject_gap_profile.rs
 #[test]
 fn kani_concrete_playback_c16_reject_gap_profile_14529796391013740085() {
